@@ -85,6 +85,8 @@ type c11Case struct {
 	Parent []int    `json:"parent,omitempty"`
 	Strat  int      `json:"strat,omitempty"`
 	Perm   int      `json:"perm,omitempty"`
+	// cli: the subordinate's configuration file is a symbolic link to a file kept in another directory
+	Link bool `json:"link,omitempty"`
 	// forest
 	N int `json:"n,omitempty"`
 	// files
@@ -506,6 +508,8 @@ func c11Enumerate(tier string, yield func(any)) {
 	}
 	for reason := 0; reason < 6; reason++ {
 		yield(&c11Case{Kind: "cli", N: reason})
+		// the same with the subordinate's configuration file being a symbolic link (native filesystem)
+		yield(&c11Case{Kind: "cli", N: reason, Link: true})
 	}
 	// an issuer that is planned but cannot be built: nothing below it may be written in that run
 	for ent := 0; ent < 2; ent++ {
@@ -1011,7 +1015,13 @@ func c11CLI(x *engine.Ctx, c *c11Case) {
 			if e.CfgNew == 1 {
 				cfgTick = artTick + 1
 			}
-			w.PutAt(fmt.Sprintf("e%d.yaml", i), cfgs[i], cfgTick)
+			if c.Link && i == 1 {
+				// the link itself is older than everything; what counts is the file it points to
+				w.PutAt("store/e1.conf", cfgs[i], cfgTick)
+				w.Symlinks = map[string]string{"e1.yaml": "store/e1.conf"}
+			} else {
+				w.PutAt(fmt.Sprintf("e%d.yaml", i), cfgs[i], cfgTick)
+			}
 			if v := c11Variant(pems[i], e.Art, e.Hash, ""); v != nil {
 				w.PutAt(fmt.Sprintf("e%d.pem", i), v, artTick)
 			}
